@@ -62,7 +62,16 @@ def conventional_plus(r, idx):
     tg = main.message("TagThingRequest")
     tg.field("name", 1, "string").map_field("labels", 2, "string", "string").field("tags", 3, "string", repeated=True)
     tg.field("origin", 4, lkr.fqn).map_field("weights", 5, "string", "int32")
-    svc.rpc("TagThing", tg.fqn, lkr.fqn, http=("post", "/v1/{name=things/*}:tag"), body="*", sigs=["name,labels,tags", "name,origin,weights"])
+    # a map whose value message (and a map whose value enum) is declared in ANOTHER file of the API than everything else the method uses
+    tf = File(f"{api.dir}/marks.proto", api.package, deps=list(apigen.STD_DEPS))
+    mark = tf.message("Mark"); mark.field("label", 1, "string")
+    grade = tf.enum("Grade", ["GRADE_UNSPECIFIED", "GRADE_A", "GRADE_B"])
+    api.files.append(tf); main.dep(tf.proto.name)
+    tg.map_field("marks", 6, "string", mark.fqn)
+    snail = main.message("MarkedThing"); snail.map_field("grades", 1, "string", ("enum", grade)).field("title", 2, "string")
+    tg.field("marked", 7, snail.fqn)
+    svc.rpc("TagThing", tg.fqn, lkr.fqn, http=("post", "/v1/{name=things/*}:tag"), body="*",
+            sigs=["name,labels,tags", "name,origin,weights", "name,marks", "marked"])
     feats.append("flattened-map-and-repeated")
     # a paged method whose page field is a map (the aggregated-list shape): the emitted REST pager test reads the pager after iteration
     sl = main.message("ThingsScopedList"); sl.field("things", 1, lkr.fqn, repeated=True).field("note", 2, "string")
